@@ -8,6 +8,7 @@ An abort is `.err v` with `v.isNil = true` (the Rust encoding `Err(nil)`).
 -/
 import PiciModel.Model.Eval
 import PiciModel.Lemmas.EvalSteps
+import PiciModel.Lemmas.InputStdin
 
 namespace Pici.C08
 open Pici
@@ -202,11 +203,23 @@ macro "eap_native" : tactic => `(tactic| (
     | eap_step
     | (dsimp only))))
 
-/-- every native except `signal`, `abort` and `receive` only raises error plists -/
+/-- every native except `signal`, `abort`, `receive` and `input-file` only raises error plists -/
 theorem eap_simpleNative (id : NativeId) (args : List Val) (d : Nat) (st : St)
-    (h1 : id ≠ .signal) (h2 : id ≠ .abort) (h3 : id ≠ .receive) :
+    (h1 : id ≠ .signal) (h2 : id ≠ .abort) (h3 : id ≠ .receive) (h4 : id ≠ .inputFile) :
     ErrsArePlists (simpleNative id args d st) := by
   cases id <;> first | contradiction | eap_native
+
+/-- `(input-file *stdin*)` raises error plists — and the abort, when the debugger's ABORT arrives while the read is
+blocked (`C19.blocked_input_abort`) -/
+theorem inputStdin_errors (n : Nat) (st st' : St) (s : Val) (h : inputStdin n st = (.err s, st')) :
+    IsErrorPlist s ∨ s = .nil := by
+  have ho := inputStdin_outcome n st
+  rw [h] at ho
+  generalize hr : (Res.err s : Res Val) = r at ho
+  cases ho with
+  | line text => cases hr
+  | error kind source details => cases hr; exact .inl (isErrorPlist_makeError ..)
+  | abort => cases hr; exact .inr rfl
 
 end helpers
 
@@ -259,11 +272,12 @@ theorem abort_is_abort (st : St) (d : Nat) : simpleNative .abort [] d st = (.err
   simp only [simpleNative, arity0]
 
 /-- every error a native raises by itself is a property list carrying kind and source; the only other `.err`
-outcomes are `signal` handing over its (non-nil) argument and `abort` -/
+outcomes are `signal` handing over its (non-nil) argument, `abort`, and the abort that the debugger's ABORT command
+causes in a blocked `receive` or a blocked `input-file` (`C19.blocked_receive`, `C19.blocked_input_abort`) -/
 theorem native_errors_are_plists (id : NativeId) (args : List Val) (d : Nat) (st st' : St) (s : Val)
     (h : simpleNative id args d st = (.err s, st')) :
     IsErrorPlist s ∨ (id = .signal ∧ args = [s] ∧ s.isNil = false) ∨ (id = .abort ∧ s = .nil) ∨
-    (id = .receive ∧ s = .nil) := by
+    (id = .receive ∧ s = .nil) ∨ (id = .inputFile ∧ s = .nil) := by
   by_cases h1 : id = .signal
   · subst h1
     simp only [simpleNative, arity1] at h
@@ -287,8 +301,20 @@ theorem native_errors_are_plists (id : NativeId) (args : List Val) (d : Nat) (st
     all_goals first
       | exact .inl (isErrorPlist_makeError ..)
       | exact .inl (isErrorPlist_wrongArity ..)
-      | exact .inr (.inr (.inr ⟨rfl, rfl⟩))
-  exact .inl (eap_simpleNative id args d st h1 h2 h3 s st' h)
+      | exact .inr (.inr (.inr (.inl ⟨rfl, rfl⟩)))
+  by_cases h4 : id = .inputFile
+  · subst h4
+    simp only [simpleNative, arity1] at h
+    split at h
+    · split at h
+      · rcases inputStdin_errors _ _ _ _ h with hp | rfl
+        · exact .inl hp
+        · exact .inr (.inr (.inr (.inr ⟨rfl, rfl⟩)))
+      · split at h
+        · cases h; exact .inl (isErrorPlist_makeError ..)
+        · cases h; exact .inl (isErrorPlist_makeError ..)
+    · cases h; exact .inl (isErrorPlist_wrongArity ..)
+  exact .inl (eap_simpleNative id args d st h1 h2 h3 h4 s st' h)
 
 /-- the first signalling operand wins: operands are evaluated left to right and a signal ends the evaluation of the operand list -/
 theorem operand_signal_propagates (fuel : Nat) (st st1 : St) (x : Val) (xs : List Val) (env : Val) (mod : Name) (d : Nat) (s : Val)
